@@ -14,15 +14,16 @@ structure InvB (s : State) : Prop where
   n : InvN s
   i : InvI s
 
-abbrev Reach (c : Cfg) : State → Prop := Reachable (· = State.init) (Step c)
+/-- states reachable by executions in which `_events` never overflows (`StepN`) -/
+abbrev Reach (c : Cfg) : State → Prop := Reachable (· = State.init) (StepN c)
 /-- reachable when the executor accepts every launch -/
-abbrev ReachA (c : Cfg) : State → Prop := Reachable (· = State.init) (StepA c)
+abbrev ReachA (c : Cfg) : State → Prop := Reachable (· = State.init) (StepAN c)
 
 theorem reach_invB {c : Cfg} {s : State} (h : Reach c s) : InvB s := by
   induction h with
   | base hi => subst hi; exact ⟨invO_init, invQ_init, invN_init, invI_init⟩
   | tail _ hst ih =>
-    have ha := hst.any
+    have ha := hst.1.any hst.2
     exact ⟨invO_any ih.o ha, invQ_any ih.q ha, invN_any ih.o ih.q ih.n ha, invI_any ih.o ih.q ih.i ha⟩
 
 theorem reach_invC {c : Cfg} (hc : c.sizeCheck = true) {s : State} (h : Reach c s) : InvC s := by
@@ -30,21 +31,27 @@ theorem reach_invC {c : Cfg} (hc : c.sizeCheck = true) {s : State} (h : Reach c 
   | base hi => subst hi; exact invC_init
   | tail hr hst ih =>
     have hb := reach_invB hr
-    exact invC_any hc hb.o hb.q ih hst.any
+    exact invC_any hc hb.o hb.q ih (hst.1.any hst.2)
+
+theorem reach_wrapped {c : Cfg} {s : State} (h : Reach c s) : s.wrapped = false := by
+  cases h with
+  | base hi => subst hi; rfl
+  | tail _ hst => exact hst.2
 
 theorem ReachA.reach {c : Cfg} {s : State} (h : ReachA c s) : Reach c s := by
   induction h with
   | base hi => exact .base hi
-  | tail _ hst ih => exact .tail ih hst.step
+  | tail _ hst ih => exact .tail ih ⟨hst.1.step, hst.2⟩
 
 /-- without refusals the ghost counter stays 0 -/
 theorem reachA_refusals {c : Cfg} {s : State} (h : ReachA c s) : s.refusals = 0 := by
   induction h with
   | base hi => subst hi; rfl
   | tail _ hst ih =>
+    obtain ⟨hst, hw⟩ := hst
     cases hst with
     | act t inp s' l h hne =>
-      have hs := stepThread_tstep h
+      have hs := stepThread_tstep h hw
       cases hs with
       | refuse ev otk hpc =>
         -- the refuse leaf is only produced by input `.launch .refuse`
